@@ -470,7 +470,11 @@ func (a *arrayObject) _deleteIdxProp(idx uint32, throw bool) bool {
 		if v := a.values[idx]; v != nil {
 			if p, ok := v.(*valueProperty); ok {
 				if !p.configurable {
-					a.val.runtime.typeErrorResult(throw, "Cannot delete property '%d' of %s", idx, a.val.toString())
+					if throw {
+						// the receiver is only described when the error is actually thrown, and never through its
+						// own (user-visible, O(length)) toString
+						a.val.runtime.typeErrorResult(true, "Cannot delete property '%d' of %s", idx, a.val.runtime.objectproto_toString(FunctionCall{This: a.val}))
+					}
 					return false
 				}
 				a.propValueCount--
